@@ -478,7 +478,10 @@ def stream_molecule(ctx):
                                [('Li', (0.0, 0.0, 0.0)), ('H', (0.0, 0.0, 1.45))],
                                [('O', (0.0, 0.0, 0.0)), ('H', (0.0, 0.757, 0.587)), ('H', (0.0, -0.757, 0.587))],
                                [('He', (0.5, -0.25, 1.0))]])
-            mult = rng.choice([1, 3]) if sum({'H': 1, 'Li': 3, 'O': 8, 'He': 2}[a] for a, _ in geom) % 2 == 0 else 2
+            if k == 2:
+                geom = 'water'           # a geometry may also be given by name (string)
+            mult = 1 if isinstance(geom, str) else \
+                rng.choice([1, 3]) if sum({'H': 1, 'Li': 3, 'O': 8, 'He': 2}[a] for a, _ in geom) % 2 == 0 else 2
             fn = os.path.join(base, 'mol%d' % k)
             desc = rng.choice(['', 'test', 'r=0.7', 'a b'])
             c = {'geometry': geom, 'multiplicity': mult, 'description': desc}
@@ -514,6 +517,23 @@ def stream_molecule(ctx):
             except Exception as e:  # noqa: BLE001
                 s.violate('MolecularData.save / load raised (three save/load cycles)', c, repr(e))
                 continue
+            # get_from_file: stored datasets, unknown keys and missing files
+            try:
+                s.count('oracle:get_from_file')
+                for a in scalars:
+                    raw = m2.get_from_file(a)
+                    if a in want:
+                        if raw is None or float(raw) != float(want[a]):
+                            s.violate('get_from_file does not return the stored dataset', c, {'property': a, 'got': repr(raw), 'saved': want[a]})
+                if m2.get_from_file('no_such_property') is not None:
+                    s.violate('get_from_file returns something for an unknown property', c, None)
+                keep = m2.filename
+                m2.filename = os.path.join(base, 'no_such_file')
+                if m2.get_from_file('hf_energy') is not None:
+                    s.violate('get_from_file returns something for a missing file', c, None)
+                m2.filename = keep
+            except Exception as e:  # noqa: BLE001
+                s.violate('get_from_file raised', c, repr(e))
             for label, mm in (('first', m2), ('second', m3), ('third', m4)):
                 bad = []
                 for a in scalars + ints + list(arrays) + ['general_calculations']:
@@ -538,11 +558,14 @@ def stream_molecule(ctx):
                 for a in ('basis', 'multiplicity', 'charge', 'description', 'name', 'n_atoms', 'n_electrons'):
                     if getattr(m, a) != getattr(mm, a):
                         bad.append((a, repr(getattr(m, a)), repr(getattr(mm, a))))
-                g0 = [(a, [float(x) for x in p]) for a, p in m.geometry]
-                g1 = [(a, [float(x) for x in p]) for a, p in mm.geometry]
+                if isinstance(m.geometry, str) or isinstance(mm.geometry, str):
+                    g0, g1 = m.geometry, mm.geometry
+                else:
+                    g0 = [(a, [float(x) for x in p]) for a, p in m.geometry]
+                    g1 = [(a, [float(x) for x in p]) for a, p in mm.geometry]
                 if g0 != g1:
                     bad.append(('geometry', g0, g1))
-                if [int(p) for p in m.protons] != [int(p) for p in numpy.atleast_1d(mm.protons)]:
+                if [int(p) for p in numpy.atleast_1d(m.protons)] != [int(p) for p in numpy.atleast_1d(mm.protons)]:
                     bad.append(('protons', list(m.protons), repr(mm.protons)))
                 if bad:
                     s.violate('MolecularData %s save/load cycle does not return the same attributes' % label, c, {'differences': bad[:4]})
@@ -559,11 +582,29 @@ def stream_molecule(ctx):
 
 
 def classify(v):
+    c = v.get('input') or {}
+    if v.get('stream') == 'molecular-data' and isinstance(c.get('geometry'), str) \
+            and v.get('what', '').startswith('MolecularData save/load does not return the atoms attribute'):
+        return 'C20-moldata-named-geometry-atoms'
     return None
 
 
 def probe_known(ctx, k):
-    return False
+    if k['id'] != 'C20-moldata-named-geometry-atoms':
+        return False
+    from openfermion.chem import MolecularData
+    base = tempfile.mkdtemp(prefix='ofv_c20p_', dir=os.environ.get('TMPDIR'))
+    try:
+        fn = os.path.join(base, 'named')
+        m = MolecularData('water', 'sto-3g', 1, filename=fn)
+        m.save()
+        a = MolecularData(filename=fn).atoms
+        a = a.tolist() if hasattr(a, 'tolist') else a
+        return a != []
+    except Exception:  # noqa: BLE001
+        return True
+    finally:
+        shutil.rmtree(base, ignore_errors=True)
 
 
 def coeff_of_text(txt):
